@@ -316,6 +316,38 @@ Theorem C02_cut_in_compressed_payload : forall decomp fuel m m1 co off last late
 Proof. exact cut_in_compressed_payload. Qed.
 Print Assumptions C02_cut_in_compressed_payload.
 
+(* the same for a compressed v0 / v1 wrapper message ([cut_wrapper]: the wrapper's header is
+   current, the value length n was read, the response announces n more bytes, fewer arrive) *)
+Theorem C02_cut_in_compressed_wrapper : forall decomp fuel m m1 co off last late acc,
+  m_empty m = false -> read_header (S (S fuel)) m = MOk tt m1 -> cut_wrapper m1 ->
+  exists b',
+    batch_run_b decomp (S (S fuel)) (mkBatch (Some m) true co off last None late) acc = Some (rev acc, EIO, b')
+    /\ b_off b' = off /\ batch_close b' = (off, true) /\ batch_close_err b' = Some EIO.
+Proof. exact cut_in_compressed_wrapper. Qed.
+Print Assumptions C02_cut_in_compressed_wrapper.
+
+(* instances (identity codec): a compressed v2 batch of three records after an uncompressed one,
+   the whole response announced, the connection cut 10 bytes before its end / right after the
+   compressed batch's header: the first batch is delivered, nothing of the cut one, Conn.offset
+   stays at its base, Close fails, the connection is closed; the same for a v1 wrapper *)
+Definition cut_layout : layout :=
+  [mkPB 2 0 100 1 ts0 [mkRec 100 ts0 None (Some [1%N]) []; mkRec 101 ts0 None (Some [2%N]) []];
+   mkPB 2 2 102 2 ts0 [mkRec 102 ts0 None (Some [3%N]) []; mkRec 103 ts0 None (Some [4%N]) []; mkRec 104 ts0 None (Some [5%N]) []]].
+Definition cut_bytes := fetch_bytes no_compress cut_layout 100.
+Example C02_regression_cut_compressed_v2 :
+  fetch_close no_decomp 100 100 105 (firstn (length cut_bytes - 10) cut_bytes) (blen cut_bytes) false
+  = Some (map msg_of (pb_recs (hd (mkPB 0 0 0 0 0 []) cut_layout)), EIO, 102, Some EIO, true)
+  /\ fetch_close no_decomp 100 100 105 (firstn (length (enc_batch no_compress (hd (mkPB 0 0 0 0 0 []) cut_layout)) + 61) cut_bytes) (blen cut_bytes) false
+  = Some (map msg_of (pb_recs (hd (mkPB 0 0 0 0 0 []) cut_layout)), EIO, 102, Some EIO, true).
+Proof. split; vm_compute; reflexivity. Qed.
+Definition cutw_layout : layout :=
+  [mkPB 1 1 200 1 ts0 [mkRec 200 ts0 None (Some [1%N]) []; mkRec 201 ts0 None (Some [2%N]) []]].
+Definition cutw_bytes := fetch_bytes no_compress cutw_layout 200.
+Example C02_regression_cut_compressed_wrapper :
+  fetch_close no_decomp 100 200 202 (firstn (length cutw_bytes - 5) cutw_bytes) (blen cutw_bytes) false
+  = Some ([], EIO, 200, Some EIO, true).
+Proof. vm_compute. reflexivity. Qed.
+
 (* regression: the witnesses of the three defects fixed in /repo now meet the property *)
 Example C02_regression_empty_tail_batch :
   fetch_run no_decomp 100 100 101 (fetch_response no_compress f1_layout 100 61) 61 false = Some ([], EEOF, 105).
